@@ -1,6 +1,6 @@
 (* C14 — the M3 reporter never crashes, hangs or leaks, whatever the call order.
    Only the property theorems; proofs in Proof/M3CloseP.v (the protocol invariant
-   and its preservation) and Proof/M3CloseQ.v (consequences).
+   and its preservation), Proof/M3CloseQ.v (consequences) and Proof/M3CloseFair.v (fair schedules).
    The system (Model/M3Close.v) is any pool of caller threads, each with any list
    of calls over {ReportCount v, ReportSamples v on the shared bucket handle,
    Flush, Close}, plus the batching goroutine process() (pick 0), over a queue of
@@ -12,7 +12,7 @@
    left after Close" are runtime clauses checked by the harness only
    (harness/vh/c14.go, c14storm.go), see props.json. *)
 From Coq Require Import ZArith List Bool Arith.
-From Tally Require Import Model.M3Close Proof.M3CloseP Proof.M3CloseQ.
+From Tally Require Import Model.M3Close Proof.M3CloseP Proof.M3CloseQ Proof.M3CloseFair.
 Import ListNotations.
 
 (* no send on the closed queue (and the queue is never closed under a waiting
@@ -56,18 +56,36 @@ Theorem C14_deadlock_free : forall shared cap progs sched, 1 <= cap ->
 Proof. exact thm_deadlock_free. Qed.
 Print Assumptions C14_deadlock_free.
 
-(* PARTIAL.  Full statement wanted: under every FAIR schedule every call,
-   in particular every Close, returns.  Fairness of arbitrary schedules is not
-   formalised; what is proved is termination under the round-robin schedule
-   (process(), thread 0, ..., thread n-1, repeated), with the explicit measure
-   mu = sum over threads of the steps they can still make + 2 * queue length +
-   the consumer's remaining exits: after mu(init) rounds every call has returned,
-   and if anybody closed, process() has exited and the queue is empty. *)
-Theorem C14_close_terminates_fair_partial : forall shared cap progs, 1 <= cap ->
+(* Under EVERY fair schedule every call, in particular every Close, returns.  A schedule is an
+   infinite sequence of picks f; it is fair when every pick (the consumer 0 and every caller
+   thread) occurs infinitely often.  Then there is a time T such that after any T' >= T steps every
+   call of every thread has returned, and if anybody called Close, process() has exited and the
+   queue is empty.  (Blocked and spinning picks are part of the schedule: a fair scheduler may
+   well pick a blocked goroutine; such a step changes nothing but its registration as waiting.) *)
+Theorem C14_close_terminates_fair : forall shared cap progs (f : nat -> nat), 1 <= cap ->
+  (forall j, j <= length progs -> forall t, exists t', t <= t' /\ f t' = j) ->
+  exists T, forall T', T <= T' ->
+  let s := run shared cap (init progs) (map f (seq 0 T')) in
+  all_finished s = true /\ (done s = true -> kl s = KDone /\ q s = []).
+Proof. exact fair_terminates. Qed.
+Print Assumptions C14_close_terminates_fair.
+
+(* the finite form with its bound: a schedule made of mu(init) segments, in each of which every
+   pick occurs at least once, finishes every call (mu = sum over threads of the steps they can
+   still make + 2 * queue length + the consumer's remaining exits) *)
+Theorem C14_close_terminates_segments : forall shared cap progs segs, 1 <= cap ->
+  Forall (fun seg => forall j, j <= length progs -> In j seg) segs ->
+  mu (init progs) <= length segs ->
+  all_finished (run shared cap (init progs) (concat segs)) = true.
+Proof. exact segments_terminate. Qed.
+Print Assumptions C14_close_terminates_segments.
+
+(* the instance used by the examples below: round-robin (process(), thread 0, ..., thread n-1) *)
+Theorem C14_close_terminates_round_robin : forall shared cap progs, 1 <= cap ->
   let s := run shared cap (init progs) (rounds (length progs) (mu (init progs))) in
   all_finished s = true /\ (done s = true -> kl s = KDone /\ q s = []).
 Proof. exact thm_terminates. Qed.
-Print Assumptions C14_close_terminates_fair_partial.
+Print Assumptions C14_close_terminates_round_robin.
 
 (* the repaired bucket handle: every sample a caller enqueues carries the
    argument of that very call (sent = pairs (argument, enqueued value)) *)
